@@ -83,7 +83,8 @@ Section Conn.
     exists st oci ch1 h1, open_connection f E ch tcp att h = Ok ((st, oci, ch1), h1) /\ heap_ok h1 /\
       h_next h <= h_next h1 /\
       ch_all ch1 = ch_all ch /\ ch_byqid ch1 = ch_byqid ch /\ ch_bytmo ch1 = ch_bytmo ch /\
-      ((oci = None /\ st <> ARES_SUCCESS /\ ch_conns ch1 = ch_conns ch /\ h_live h1 = h_live h) \/
+      ((oci = None /\ st <> ARES_SUCCESS /\ (st = ARES_ENOMEM \/ st = e_sock E att) /\
+        ch_conns ch1 = ch_conns ch /\ h_live h1 = h_live h) \/
        (exists c, oci = Some (if tcp then length (ch_conns ch) else 0) /\ st = ARES_SUCCESS /\
                   cn_queries c = [] /\
                   ch_conns ch1 = (if tcp then ch_conns ch ++ [c] else c :: ch_conns ch) /\
@@ -93,37 +94,38 @@ Section Conn.
     remember (open_connection f E ch tcp att h) as R eqn:HR.
     unfold open_connection, group, open_conn_undo in HR.
     set (n0 := h_next h) in *.
-    assert (Hfail : forall n st, n0 <= n -> st <> ARES_SUCCESS ->
+    assert (Hfail : forall n st, n0 <= n -> st <> ARES_SUCCESS -> (st = ARES_ENOMEM \/ st = e_sock E att) ->
               R = Ok (st, None, mkChan (ch_all ch) (ch_byqid ch) (ch_bytmo ch) (ch_conns ch) (ch_closed ch), mkHeap n (h_live h)) \/
               R = Ok (st, None, mkChan (ch_all ch) (ch_byqid ch) (ch_bytmo ch) (ch_conns ch) (S (ch_closed ch)), mkHeap n (h_live h)) ->
               exists st oci ch1 h1, R = Ok ((st, oci, ch1), h1) /\ heap_ok h1 /\ n0 <= h_next h1 /\
                 ch_all ch1 = ch_all ch /\ ch_byqid ch1 = ch_byqid ch /\ ch_bytmo ch1 = ch_bytmo ch /\
-                ((oci = None /\ st <> ARES_SUCCESS /\ ch_conns ch1 = ch_conns ch /\ h_live h1 = h_live h) \/
+                ((oci = None /\ st <> ARES_SUCCESS /\ (st = ARES_ENOMEM \/ st = e_sock E att) /\
+                  ch_conns ch1 = ch_conns ch /\ h_live h1 = h_live h) \/
                  (exists c, oci = Some (if tcp then length (ch_conns ch) else 0) /\ st = ARES_SUCCESS /\
                             cn_queries c = [] /\
                             ch_conns ch1 = (if tcp then ch_conns ch ++ [c] else c :: ch_conns ch) /\
                             exists new, length new = 6 /\ h_live h1 = new ++ h_live h))).
-    { intros n st Hn Hst [HR'|HR']; rewrite HR'; eexists; eexists; eexists; eexists;
+    { intros n st Hn Hst Hpv [HR'|HR']; rewrite HR'; eexists; eexists; eexists; eexists;
         (split; [reflexivity|]); (split; [apply heap_ok_next; [assumption | exact Hn]|]);
         simpl; (split; [exact Hn|]); repeat split; auto; left; repeat split; auto. }
     assert (Hnm : ARES_ENOMEM <> ARES_SUCCESS) by discriminate.
     step_malloc_in HR.
-    2:{ unfold ret in HR. eapply (Hfail (S n0) ARES_ENOMEM); [lia | exact Hnm|]. left.
+    2:{ unfold ret in HR. eapply (Hfail (S n0) ARES_ENOMEM); [lia | exact Hnm | left; reflexivity|]. left.
         rewrite HR. destruct ch; reflexivity. }
     step_malloc_in HR; step_malloc_in HR; step_malloc_in HR.
     2-8: (unfold bindM at 1 in HR; step_undo_in HR (h_live h); unfold ret in HR; cbv beta iota in HR;
-          eapply (Hfail (S (S (S (S n0)))) ARES_ENOMEM); [lia | exact Hnm|]; left; exact HR).
+          eapply (Hfail (S (S (S (S n0)))) ARES_ENOMEM); [lia | exact Hnm | left; reflexivity|]; left; exact HR).
     destruct (Z.eqb (e_sock E att) ARES_SUCCESS) eqn:Es; cbn [negb] in HR; cbv iota in HR.
     2:{ unfold bindM at 1 in HR; step_undo_in HR (h_live h); unfold ret in HR; cbv beta iota in HR.
         assert (Hne : e_sock E att <> ARES_SUCCESS) by (intros Heq; rewrite Heq in Es; discriminate).
-        eapply (Hfail (S (S (S (S n0)))) (e_sock E att)); [lia | exact Hne|].
+        eapply (Hfail (S (S (S (S n0)))) (e_sock E att)); [lia | exact Hne | right; reflexivity|].
         destruct (negb (Z.eqb (e_sock E att) ARES_EBADFAMILY)); [right | left]; exact HR. }
     step_malloc_in HR.
     2:{ unfold bindM at 1 in HR; step_undo_in HR (h_live h); unfold ret in HR; cbv beta iota in HR.
-        eapply (Hfail (S (S (S (S (S n0))))) ARES_ENOMEM); [lia | exact Hnm|]. right. exact HR. }
+        eapply (Hfail (S (S (S (S (S n0))))) ARES_ENOMEM); [lia | exact Hnm | left; reflexivity|]. right. exact HR. }
     step_malloc_in HR.
     2:{ unfold bindM at 1 in HR; step_undo_in HR (h_live h); unfold ret in HR; cbv beta iota in HR.
-        eapply (Hfail (S (S (S (S (S (S n0)))))) ARES_ENOMEM); [lia | exact Hnm|]. right. exact HR. }
+        eapply (Hfail (S (S (S (S (S (S n0)))))) ARES_ENOMEM); [lia | exact Hnm | left; reflexivity|]. right. exact HR. }
     unfold ret in HR. rewrite HR.
     eexists; eexists; eexists; eexists. split; [reflexivity|].
     split.
@@ -168,6 +170,11 @@ Section SendQuery.
   Hypothesis Hreuse : forall att i, e_reuse E att = Some i -> i < nconn0.
   Hypothesis Hwrite : forall att, e_write E att <> ARES_ECONNREFUSED /\ e_write E att <> ARES_EBADFAMILY.
 
+  (* where a failure status can come from *)
+  Definition ext_status (st : Z) : Prop := (exists att, st = e_sock E att) \/ (exists att, st = e_write E att).
+  Definition prov (st : Z) : Prop :=
+    st = ARES_ENOMEM \/ (st = ARES_ENOSERVER /\ exists att, e_server E att = false) \/ ext_status st.
+
   Definition sq_pre (ch : chan) (q : query) (h : heap) : Prop :=
     heap_ok h /\ q_inv q h /\ q_tmo q = None /\ q_cqn q = None /\
     nconn0 <= length (ch_conns ch) /\ ~ In (q_qid q) (ch_bytmo ch).
@@ -184,7 +191,9 @@ Section SendQuery.
     match r_query r with
     | None =>
       (* ended: exactly one more callback, with a failure status; no trace of the query *)
-      (exists st, r_cbs r = cbs ++ [st] /\ st <> ARES_SUCCESS) /\ r_status r <> ARES_SUCCESS /\
+      (exists st, r_cbs r = cbs ++ [st] /\ st <> ARES_SUCCESS /\ prov st /\
+                  (r_status r = st \/ (r_status r = ARES_ETIMEOUT /\ ext_status st))) /\
+      r_status r <> ARES_SUCCESS /\
       ch_all (r_chan r) = (match q_all q with Some _ => remove_z (q_qid q) (ch_all ch) | None => ch_all ch end) /\
       ch_byqid (r_chan r) = (match q_qide q with Some _ => remove_z (q_qid q) (ch_byqid ch) | None => ch_byqid ch end) /\
       ch_bytmo (r_chan r) = ch_bytmo ch /\
@@ -214,7 +223,7 @@ Section SendQuery.
 
   (* the common tail of every failing branch: end_query on a query whose blocks are live *)
   Lemma ended_post ch q cbs h ch1 qx st h1 :
-    heap_ok h1 -> h_next h <= h_next h1 -> q_inv qx h1 -> st <> ARES_SUCCESS ->
+    heap_ok h1 -> h_next h <= h_next h1 -> q_inv qx h1 -> st <> ARES_SUCCESS -> prov st ->
     q_qid qx = q_qid q -> q_all qx = q_all q -> q_qide qx = q_qide q -> q_cqn qx = None ->
     ch_all ch1 = ch_all ch -> ch_byqid ch1 = ch_byqid ch ->
     ~ In (q_qid q) (ch_bytmo ch) ->
@@ -224,17 +233,18 @@ Section SendQuery.
     (forall c, In c (ch_conns ch1) -> In c (ch_conns ch) \/ cn_queries c = []) ->
     length (h_live h1) + length (qblocks q) + 6 * length (ch_conns ch)
       = length (h_live h) + length (qblocks qx) + 6 * length (ch_conns ch1) ->
-    exists r h', end_query ch1 qx st cbs h1 = Ok (r, h') /\ r_status r = st /\ r_query r = None /\
-                 sq_post ch q cbs h r h'.
+    exists r h', end_query ch1 qx st cbs h1 = Ok (r, h') /\ (r_status r = st /\ r_cbs r = cbs ++ [st]) /\
+                 r_query r = None /\ sq_post ch q cbs h r h'.
   Proof.
-    intros Hok1 Hnx Hq Hst Hid Hall Hqide Hcqn Hca Hcb Habs Htmo Hlen Hconns Hled.
+    intros Hok1 Hnx Hq Hst Hpv Hid Hall Hqide Hcqn Hca Hcb Habs Htmo Hlen Hconns Hled.
     destruct (end_query_spec ch1 qx st cbs h1 Hok1 Hq) as (h2 & Hr & Hok2 & Hn2 & Hl2).
-    eexists; eexists. split; [exact Hr|]. split; [reflexivity|]. split; [reflexivity|].
+    eexists; eexists. split; [exact Hr|]. split; [split; reflexivity|]. split; [reflexivity|].
     unfold sq_post. cbn [r_query r_cbs r_status r_chan].
     unfold free_query_chan, unlink_conn. rewrite Hcqn. cbn [ch_all ch_byqid ch_bytmo ch_conns].
     split; [exact Hok2|]. split; [lia|]. split; [exact Hlen|].
     split; [intros c Hc; apply Hconns in Hc; tauto|].
-    split; [exists st; split; [reflexivity | exact Hst]|]. split; [exact Hst|].
+    split; [exists st; split; [reflexivity|]; split; [exact Hst|]; split; [exact Hpv | left; reflexivity]|].
+    split; [exact Hst|].
     rewrite Hid, Hall, Hqide, Hca, Hcb.
     split; [reflexivity|]. split; [reflexivity|]. split.
     - destruct Htmo as [[Ht Hb]|[tn [Ht Hb]]]; rewrite Ht, Hb; [reflexivity|].
@@ -293,10 +303,10 @@ Section SendQuery.
   Proof. unfold same_query. auto 10. Qed.
 
   Lemma requeue_spec resend ch q cbs h status :
-    resend_ok resend q cbs -> sq_pre ch q h -> status <> ARES_SUCCESS ->
+    resend_ok resend q cbs -> sq_pre ch q h -> status <> ARES_SUCCESS -> ext_status status ->
     exists r h', requeue_query E resend ch q status cbs h = Ok (r, h') /\ sq_post ch q cbs h r h'.
   Proof.
-    intros Hres (Hok & Hq & Ht & Hc & Hn & Habs) Hst.
+    intros Hres (Hok & Hq & Ht & Hc & Hn & Habs) Hst Hext.
     unfold requeue_query. rewrite (bindM_ok _ _ _ _ _ (remove_from_conn_detached ch q h Ht Hc)).
     cbv beta iota.
     assert (Hse : Z.eqb status ARES_SUCCESS = false) by (apply Z.eqb_neq; exact Hst).
@@ -318,14 +328,20 @@ Section SendQuery.
     - cbn [q_err q2].
       assert (Hst2 : (if Z.eqb status ARES_SUCCESS then ARES_ETIMEOUT else status) <> ARES_SUCCESS)
         by (rewrite Hse; exact Hst).
+      assert (Hpv2 : prov (if Z.eqb status ARES_SUCCESS then ARES_ETIMEOUT else status))
+        by (rewrite Hse; right; right; exact Hext).
       destruct (ended_post ch q cbs h ch q2 (if Z.eqb status ARES_SUCCESS then ARES_ETIMEOUT else status) h)
-        as (r & h' & Hrun & Hrs & Hrq & Hpost); auto; try lia.
+        as (r & h' & Hrun & (Hrs & Hrc) & Hrq & Hpost); auto; try lia.
       rewrite (bindM_ok _ _ _ _ _ Hrun). unfold ret.
       eexists; eexists. split; [reflexivity|].
       unfold sq_post in *. cbn [r_query r_cbs r_status r_chan].
       destruct Hpost as (A & B & C & D & Hm). rewrite Hrq in *.
       split; [exact A|]. split; [exact B|]. split; [exact C|]. split; [exact D|].
-      destruct Hm as (M1 & M2 & M3). split; [exact M1|]. split; [discriminate|]. exact M3.
+      destruct Hm as ((st & S1 & S2 & S3 & S4) & M2 & M3).
+      split.
+      { exists st. split; [exact S1|]. split; [exact S2|]. split; [exact S3|]. right. split; [reflexivity|].
+        rewrite Hrc in S1. apply app_inv_head in S1. inversion S1 as [S1']. rewrite Hse. exact Hext. }
+      split; [discriminate|]. exact M3.
   Qed.
 
   Lemma nth_error_upd_conn l i g c :
@@ -346,8 +362,10 @@ Section SendQuery.
     remember (send_query_step f E resend ch q cbs h) as R eqn:HR.
     unfold send_query_step in HR.
     assert (HnmS : ARES_ENOMEM <> ARES_SUCCESS) by discriminate.
-    destruct (e_server E (q_try q)); cbn [negb] in HR; cbv iota in HR.
-    2:{ destruct (ended_post ch q cbs h ch q ARES_ENOSERVER h) as (r & h' & Hrun & _ & _ & Hpost); side.
+    assert (HpvM : prov ARES_ENOMEM) by (left; reflexivity).
+    destruct (e_server E (q_try q)) eqn:Esrv; cbn [negb] in HR; cbv iota in HR.
+    2:{ assert (HpvS : prov ARES_ENOSERVER) by (right; left; split; [reflexivity | exists (q_try q); exact Esrv]).
+        destruct (ended_post ch q cbs h ch q ARES_ENOSERVER h) as (r & h' & Hrun & _ & _ & Hpost); side.
         exists r, h'. split; [rewrite HR; exact Hrun | exact Hpost]. }
     (* the connection: re-used or opened *)
     assert (Hconn : exists ost oci ch1 h1,
@@ -360,7 +378,8 @@ Section SendQuery.
               (forall c, In c (ch_conns ch1) -> In c (ch_conns ch) \/ cn_queries c = []) /\
               length (h_live h1) + 6 * length (ch_conns ch) = length (h_live h) + 6 * length (ch_conns ch1) /\
               (forall x, In x (h_live h) -> In x (h_live h1)) /\
-              ((oci = None /\ ost <> ARES_SUCCESS) \/ (exists ci, oci = Some ci /\ ci < length (ch_conns ch1)))).
+              ((oci = None /\ ost <> ARES_SUCCESS /\ (ost = ARES_ENOMEM \/ ost = e_sock E (q_try q))) \/
+               (exists ci, oci = Some ci /\ ci < length (ch_conns ch1)))).
     { destruct (e_reuse E (q_try q)) as [i|] eqn:Er.
       - exists ARES_SUCCESS, (Some i), ch, h. unfold ret. split; [reflexivity|].
         split; [exact Hok|]. split; [lia|]. split; [reflexivity|]. split; [reflexivity|]. split; [reflexivity|].
@@ -370,7 +389,7 @@ Section SendQuery.
           as (st & oci & ch1 & h1 & Hrun & Hok1 & Hnx & Ha & Hb & Hm & Hcase).
         exists st, oci, ch1, h1. split; [exact Hrun|]. split; [exact Hok1|]. split; [exact Hnx|].
         split; [exact Ha|]. split; [exact Hb|]. split; [exact Hm|].
-        destruct Hcase as [(Ho & Hst & Hcs & Hlv) | (c & Ho & Hst & Hcq & Hcs & new & Hnl & Hlv)].
+        destruct Hcase as [(Ho & Hst & Hpv & Hcs & Hlv) | (c & Ho & Hst & Hcq & Hcs & new & Hnl & Hlv)].
         + rewrite Hcs, Hlv. split; [lia|]. split; [intros c Hc'; left; exact Hc'|]. split; [lia|].
           split; [auto|]. left. auto.
         + rewrite Hcs, Hlv. rewrite app_length, Hnl.
@@ -390,10 +409,14 @@ Section SendQuery.
     { unfold sq_pre. split; [exact Hok1|]. split; [exact Hq1|]. split; [exact Ht|]. split; [exact Hc|].
       split; [lia|]. rewrite Hm1. exact Habs. }
     assert (Habs1 : ~ In (q_qid q) (ch_bytmo ch1)) by (rewrite Hm1; exact Habs).
-    destruct Hcase1 as [(Ho & Host) | (ci & Ho & Hci)]; subst oci.
+    destruct Hcase1 as [(Ho & Host & Hopv) | (ci & Ho & Hci)]; subst oci.
     - (* no connection *)
-      destruct (Z.eqb ost ARES_ECONNREFUSED || Z.eqb ost ARES_EBADFAMILY).
-      + destruct (requeue_spec resend ch1 q cbs h1 ost Hres Hpre1 Host) as (r & h' & Hrun & Hpost).
+      assert (Hpvo : prov ost).
+      { destruct Hopv as [->| ->]; [exact HpvM | right; right; left; exists (q_try q); reflexivity]. }
+      destruct (Z.eqb ost ARES_ECONNREFUSED || Z.eqb ost ARES_EBADFAMILY) eqn:Eor.
+      + assert (Hexo : ext_status ost).
+        { destruct Hopv as [->| ->]; [discriminate Eor | left; exists (q_try q); reflexivity]. }
+        destruct (requeue_spec resend ch1 q cbs h1 ost Hres Hpre1 Host Hexo) as (r & h' & Hrun & Hpost).
         exists r, h'. split; [rewrite HR; exact Hrun|]. eapply sq_post_lift; eauto.
       + destruct (ended_post ch1 q cbs h1 ch1 q ost h1) as (r & h' & Hrun & _ & _ & Hpost); side.
         exists r, h'. split; [rewrite HR; exact Hrun|]. eapply sq_post_lift; eauto.
@@ -423,7 +446,8 @@ Section SendQuery.
       destruct (Z.eqb_spec (e_write E (q_try q)) ARES_EBADFAMILY) as [Ewb|_]; [contradiction|].
       cbn [orb] in HR. cbv iota in HR.
       destruct (Z.eqb_spec (e_write E (q_try q)) ARES_SUCCESS) as [Ews|Ews]; cbn [negb] in HR; cbv iota in HR.
-      2:{ destruct (requeue_spec resend ch1 q cbs h2 (e_write E (q_try q)) Hres Hpre2 Ews) as (r & h' & Hrun & Hpost).
+      2:{ assert (Hexw : ext_status (e_write E (q_try q))) by (right; exists (q_try q); reflexivity).
+          destruct (requeue_spec resend ch1 q cbs h2 (e_write E (q_try q)) Hres Hpre2 Ews Hexw) as (r & h' & Hrun & Hpost).
           exists r, h'. split; [rewrite HR; exact Hrun | auto]. }
       (* timeout list *)
       rewrite Ht in HR. unfold free_opts at 1 in HR. cbn [cat_somes free_all] in HR.
@@ -495,5 +519,272 @@ Section SendQuery.
           - constructor; [exact Htn | exact (proj1 Hq2)].
           - intros x [<-|Hx]; simpl; [left; reflexivity|]. right. destruct Hq2 as [_ Hi]. apply Hi. exact Hx. }
         exists r, h'. split; [rewrite HR; exact Hrun | auto].
+  Qed.
+
+  (* ares_send_query with all its re-sends: the fuel of the model is always enough *)
+  Lemma send_query_spec : forall fuel ch q cbs h,
+    sq_pre ch q h -> q_try q <= e_nservers E * e_tries E -> e_nservers E * e_tries E < fuel + q_try q ->
+    exists r h', send_query f E fuel ch q cbs h = Ok (r, h') /\ sq_post ch q cbs h r h'.
+  Proof.
+    induction fuel as [|fu IH]; intros ch q cbs h Hpre Hle Hfuel; [lia|].
+    cbn [send_query]. apply send_query_step_spec; [|exact Hpre].
+    intros ch' q' h0 Hpre' Hsame Htry Hlt. apply IH; [exact Hpre' | lia | lia].
+  Qed.
+
+  (* ---------------------------------------------------------------------------------- *)
+  (* ares_send_nolock                                                                     *)
+  (* ---------------------------------------------------------------------------------- *)
+  Definition fresh_qid (ch : chan) (qid : Z) : Prop :=
+    ~ In qid (ch_all ch) /\ ~ In qid (ch_byqid ch) /\ ~ In qid (ch_bytmo ch).
+
+  (* where the status of the single callback of a failed submission can come from *)
+  Definition prov0 (st : Z) : Prop :=
+    prov st \/ (e_nservers E = 0 /\ st = ARES_ENOSERVER) \/
+    (e_nocache E = false /\ st = e_cache E /\ st <> ARES_ENOTFOUND) \/
+    (st = (if Z.eqb (e_dup E) ARES_EBADRESP then ARES_EBADQUERY else e_dup E) /\ e_dup E <> ARES_SUCCESS) \/
+    (st = e_0x20_status E /\ e_0x20 E = true /\ e_usevc E = false).
+
+  Definition submit_post (ch : chan) (qid : Z) (h : heap) (r : result) (h' : heap) : Prop :=
+    heap_ok h' /\
+    length (ch_conns ch) <= length (ch_conns (r_chan r)) /\
+    (forall c, In c (ch_conns (r_chan r)) -> In c (ch_conns ch) \/ cn_queries c = [] \/ r_query r <> None) /\
+    match r_query r with
+    | None =>
+      (* exactly one callback; the channel's indexes are as before; the ledger balances *)
+      (exists st, r_cbs r = [st] /\ prov0 st /\
+                  (st = ARES_SUCCESS -> e_nocache E = false /\ e_cache E = ARES_SUCCESS /\ r_status r = ARES_SUCCESS) /\
+                  (r_status r = st \/ (r_status r = ARES_ETIMEOUT /\ ext_status st))) /\
+      ch_all (r_chan r) = ch_all ch /\ ch_byqid (r_chan r) = ch_byqid ch /\ ch_bytmo (r_chan r) = ch_bytmo ch /\
+      length (h_live h') + 6 * length (ch_conns ch) = length (h_live h) + 6 * length (ch_conns (r_chan r))
+    | Some q' =>
+      (* no callback yet; the request is in all four indexes; every new block is owned *)
+      r_cbs r = [] /\ r_status r = ARES_SUCCESS /\ q_qid q' = qid /\ q_inv q' h' /\
+      ch_all (r_chan r) = ch_all ch ++ [qid] /\ ch_byqid (r_chan r) = qid :: ch_byqid ch /\
+      ch_bytmo (r_chan r) = qid :: ch_bytmo ch /\
+      (exists tn ci nb c, q_tmo q' = Some tn /\ q_cqn q' = Some (ci, nb) /\
+                          nth_error (ch_conns (r_chan r)) ci = Some c /\ In (qid, nb) (cn_queries c)) /\
+      length (h_live h') + 6 * length (ch_conns ch)
+        = length (h_live h) + length (qblocks q') + 6 * length (ch_conns (r_chan r))
+    end.
+
+  Lemma remove_z_app_fresh x l : ~ In x l -> remove_z x (l ++ [x]) = l.
+  Proof. intros H. rewrite remove_z_app_same. apply remove_z_notin. exact H. Qed.
+
+  Lemma remove_z_cons_fresh x l : ~ In x l -> remove_z x (x :: l) = l.
+  Proof. intros H. rewrite remove_z_cons_same. apply remove_z_notin. exact H. Qed.
+
+  (* a submission that ends at once with one callback and leaves everything as it was *)
+  Lemma submit_post_ended ch qid h h' st rs :
+    heap_ok h' -> length (h_live h') = length (h_live h) -> prov0 st ->
+    (st = ARES_SUCCESS -> e_nocache E = false /\ e_cache E = ARES_SUCCESS /\ rs = ARES_SUCCESS) ->
+    rs = st ->
+    submit_post ch qid h (mkRes rs [st] None ch) h'.
+  Proof.
+    intros Hok Hl Hp Hs Hrs. unfold submit_post. cbn [r_query r_cbs r_status r_chan].
+    split; [exact Hok|]. split; [lia|]. split; [intros c Hc; left; exact Hc|].
+    split; [exists st; split; [reflexivity|]; split; [exact Hp|]; split; [exact Hs | left; exact Hrs]|].
+    rewrite Hl. repeat split; lia.
+  Qed.
+
+  Theorem send_nolock_spec ch qid h :
+    heap_ok h -> fresh_qid ch qid -> nconn0 <= length (ch_conns ch) ->
+    exists r h', send_nolock f E ch qid h = Ok (r, h') /\ submit_post ch qid h r h'.
+  Proof.
+    intros Hok (Hf1 & Hf2 & Hf3) Hnc.
+    remember (send_nolock f E ch qid h) as R eqn:HR. unfold send_nolock in HR.
+    assert (HpvM : prov0 ARES_ENOMEM) by (left; left; reflexivity).
+    assert (HnmS : ARES_ENOMEM = ARES_SUCCESS -> e_nocache E = false /\ e_cache E = ARES_SUCCESS /\ ARES_ENOMEM = ARES_SUCCESS)
+      by (intros Hx; discriminate Hx).
+    destruct (Nat.eqb_spec (e_nservers E) 0) as [Ens|Ens].
+    { unfold ret in HR. eexists; eexists. split; [exact HR|].
+      apply submit_post_ended; auto.
+      - right. left. split; [exact Ens | reflexivity].
+      - intros Hx; discriminate Hx. }
+    (* the cache *)
+    assert (Hcache : exists c h1,
+              (if e_nocache E then ret ARES_ENOTFOUND
+               else k <- group f ;; match k with
+                                    | None => ret ARES_ENOMEM
+                                    | Some kb => free (Some kb) ;;; ret (e_cache E)
+                                    end) h = Ok (c, h1) /\
+              heap_ok h1 /\ h_live h1 = h_live h /\
+              (c = ARES_ENOTFOUND \/
+               (prov0 c /\ (c = ARES_SUCCESS -> e_nocache E = false /\ e_cache E = ARES_SUCCESS /\ c = ARES_SUCCESS)))).
+    { destruct (e_nocache E) eqn:Enc.
+      - exists ARES_ENOTFOUND, h. unfold ret. auto.
+      - unfold group. destruct (malloc_cases f h) as [[Ef M]|[Ef M]]; rewrite (bindM_ok _ _ _ _ _ M).
+        + unfold bindM, free, ret. cbn [h_live h_next memb remove_one]. rewrite Nat.eqb_refl. cbn [orb].
+          eexists; eexists. split; [reflexivity|]. split; [apply heap_ok_skip; exact Hok|]. split; [reflexivity|].
+          destruct (Z.eqb_spec (e_cache E) ARES_ENOTFOUND) as [Ec|Ec]; [left; exact Ec|].
+          right. split; [right; right; left; auto | auto].
+        + unfold ret. eexists; eexists. split; [reflexivity|]. split; [apply heap_ok_skip; exact Hok|].
+          split; [reflexivity|]. right. split; [exact HpvM | exact HnmS]. }
+    destruct Hcache as (c & h1 & Hrun1 & Hok1 & Hl1 & Hc).
+    rewrite (bindM_ok _ _ _ _ _ Hrun1) in HR. cbv beta iota in HR.
+    destruct (Z.eqb_spec c ARES_ENOTFOUND) as [Ec|Ec]; cbn [negb] in HR; cbv iota in HR.
+    2:{ destruct Hc as [Hc|[Hp Hs]]; [contradiction|].
+        unfold ret in HR. eexists; eexists. split; [exact HR|]. apply submit_post_ended; auto.
+        rewrite Hl1. reflexivity. }
+    clear Hc Ec c Hrun1.
+    (* from here on: allocations relative to h1 *)
+    enough (Hg : exists r h', R = Ok (r, h') /\ submit_post ch qid h1 r h').
+    { destruct Hg as (r & h' & A & B). exists r, h'. split; [exact A|].
+      unfold submit_post in *. rewrite Hl1 in B. exact B. }
+    clear Hl1 Hok h. rename h1 into h. rename Hok1 into Hok.
+    set (n0 := h_next h) in *.
+    unfold group in HR.
+    step_malloc_in HR.
+    2:{ unfold ret in HR. eexists; eexists. split; [exact HR|].
+        apply submit_post_ended; auto. apply heap_ok_skip. exact Hok. }
+    step_malloc_in HR.
+    2:{ unfold bindM at 1 in HR. unfold free at 1 in HR. cbn [h_live h_next memb remove_one] in HR.
+        rewrite Nat.eqb_refl in HR. cbn [orb] in HR. cbv beta iota in HR. unfold ret in HR.
+        eexists; eexists. split; [exact HR|].
+        apply submit_post_ended; auto. apply (heap_ok_next h); [exact Hok | simpl; lia]. }
+    destruct (Z.eqb_spec (e_dup E) ARES_SUCCESS) as [Ed|Ed]; cbn [negb] in HR; cbv iota in HR.
+    2:{ unfold bindM at 1 in HR. unfold free at 1 in HR. cbn [h_live h_next memb remove_one] in HR.
+        rewrite Nat.eqb_refl in HR. cbn [orb] in HR. cbv beta iota in HR.
+        unfold bindM at 1 in HR. unfold free at 1 in HR. cbn [h_live h_next memb remove_one] in HR.
+        rewrite Nat.eqb_refl in HR. cbn [orb] in HR. cbv beta iota in HR. unfold ret in HR.
+        eexists; eexists. split; [exact HR|].
+        apply submit_post_ended; auto.
+        - apply (heap_ok_next h); [exact Hok | simpl; lia].
+        - right. right. right. left. split; [reflexivity | exact Ed].
+        - intros Hx. exfalso. destruct (Z.eqb (e_dup E) ARES_EBADRESP); [discriminate Hx | contradiction]. }
+    (* DNS 0x20 *)
+    set (h2 := mkHeap (S (S n0)) (S n0 :: n0 :: h_live h)) in *.
+    assert (Hok2 : heap_ok h2) by (do 2 (apply heap_ok_push in Hok; cbn [h_next h_live] in Hok); exact Hok).
+    assert (H0x : exists xst xnm h3,
+              (if e_0x20 E && negb (e_usevc E)
+               then nm <- malloc f ;;
+                    match nm with
+                    | None => ret (ARES_ENOMEM, None)
+                    | Some nb => if Z.eqb (e_0x20_status E) ARES_SUCCESS then ret (ARES_SUCCESS, Some nb)
+                                 else free (Some nb) ;;; ret (e_0x20_status E, None)
+                    end
+               else ret (ARES_SUCCESS, None)) h2 = Ok ((xst, xnm), h3) /\ heap_ok h3 /\
+              S (S n0) <= h_next h3 /\
+              ((xst = ARES_SUCCESS /\ xnm = None /\ h_live h3 = h_live h2) \/
+               (xst = ARES_SUCCESS /\ xnm = Some (S (S n0)) /\ h_live h3 = S (S n0) :: h_live h2 /\ h_next h3 = S (S (S n0))) \/
+               (xst <> ARES_SUCCESS /\ xnm = None /\ h_live h3 = h_live h2 /\ prov0 xst))).
+    { destruct (e_0x20 E && negb (e_usevc E)) eqn:E20.
+      2:{ exists ARES_SUCCESS, None, h2. unfold ret. split; [reflexivity|]. split; [exact Hok2|].
+          split; [simpl; lia|]. left. auto. }
+      apply andb_true_iff in E20 as [E20a E20b]. apply negb_true_iff in E20b.
+      destruct (malloc_cases f h2) as [[Ex M]|[Ex M]]; rewrite (bindM_ok _ _ _ _ _ M).
+      - destruct (Z.eqb_spec (e_0x20_status E) ARES_SUCCESS) as [E2s|E2s].
+        + unfold ret. eexists; eexists; eexists. split; [reflexivity|].
+          split; [apply heap_ok_push; exact Hok2|]. split; [simpl; lia|]. right. left. simpl. auto.
+        + unfold bindM, free, ret. cbn [h_live h_next memb remove_one]. rewrite Nat.eqb_refl. cbn [orb].
+          eexists; eexists; eexists. split; [reflexivity|].
+          split; [apply (heap_ok_skip h2 Hok2)|]. split; [simpl; lia|]. right. right.
+          repeat split; auto. right. right. right. right. auto.
+      - unfold ret. eexists; eexists; eexists. split; [reflexivity|].
+        split; [apply (heap_ok_skip h2 Hok2)|]. split; [simpl; lia|]. right. right.
+        repeat split; auto. discriminate. }
+    destruct H0x as (xst & xnm & h3 & Hrun3 & Hok3 & Hn3 & Hx).
+    rewrite (bindM_ok _ _ _ _ _ Hrun3) in HR. cbv beta iota in HR. clear Hrun3.
+    (* the blocks the query owns so far are live in h3 and distinct *)
+    assert (Hbase : (forall x, In x (h_live h2) -> In x (h_live h3)) /\
+                    length (h_live h3) = length (cat_somes [xnm]) + 2 + length (h_live h) /\
+                    NoDup (cat_somes [xnm; Some (S n0); Some n0]) /\
+                    incl (cat_somes [xnm; Some (S n0); Some n0]) (h_live h3) /\
+                    (forall b, In b (cat_somes [xnm; Some (S n0); Some n0]) -> b < h_next h3)).
+    { destruct Hx as [(-> & -> & Hl3) | [(-> & -> & Hl3 & Hn3') | (_ & -> & Hl3 & _)]]; rewrite Hl3; unfold h2;
+        cbn [cat_somes h_live length]; (split; [intros x Hx'; simpl in *; tauto|]); (split; [lia|]);
+        (split; [explicit_nodup|]); (split; [explicit_incl|]); intros b Hb; simpl in Hb; lia. }
+    destruct Hbase as (Hsub3 & Hlen3 & Hnd3 & Hin3 & Hlt3).
+    destruct (Z.eqb_spec xst ARES_SUCCESS) as [Exs|Exs]; cbn [negb] in HR; cbv iota in HR.
+    2:{ (* callback, ares_free_query *)
+        destruct Hx as [(Hx1 & _) | [(Hx1 & _) | (_ & Hxn & Hl3 & Hp)]]; try contradiction. subst xnm.
+        set (q1 := mkQuery qid n0 (Some (S n0)) None None None None None 0 ARES_SUCCESS (e_usevc E)) in *.
+        destruct (free_query_spec ch q1 h3 Hok3) as (h4 & Hr4 & Hok4 & Hn4 & Hl4).
+        { split; [exact Hnd3 | exact Hin3]. }
+        rewrite (bindM_ok _ _ _ _ _ Hr4) in HR. unfold ret in HR.
+        eexists; eexists. split; [exact HR|].
+        replace (free_query_chan ch q1) with ch by (destruct ch; reflexivity).
+        apply submit_post_ended; auto.
+        - unfold qblocks, q1 in Hl4. cbn [q_tmo q_cqn q_qide q_all q_name q_rec q_blk option_map] in Hl4.
+          cbn [cat_somes length] in *. lia.
+        - intros Hx'. contradiction. }
+    subst xst.
+    assert (Hxn : xnm = None \/ xnm = Some (S (S n0))).
+    { destruct Hx as [(_ & Hx' & _) | [(_ & Hx' & _) | (Hx' & _)]]; [left; exact Hx' | right; exact Hx' | contradiction]. }
+    clear Hx.
+    (* all_queries *)
+    step_malloc_in HR.
+    2:{ set (q2 := mkQuery qid n0 (Some (S n0)) xnm None None None None 0 ARES_SUCCESS (e_usevc E)) in *.
+        destruct (free_query_spec ch q2 (mkHeap (S (h_next h3)) (h_live h3))) as (h4 & Hr4 & Hok4 & Hn4 & Hl4).
+        { apply heap_ok_skip. exact Hok3. }
+        { split; [exact Hnd3 | exact Hin3]. }
+        rewrite (bindM_ok _ _ _ _ _ Hr4) in HR. unfold ret in HR.
+        eexists; eexists. split; [exact HR|].
+        replace (free_query_chan ch q2) with ch by (destruct ch; reflexivity).
+        apply submit_post_ended; auto.
+        unfold qblocks, q2 in Hl4. cbn [q_tmo q_cqn q_qide q_all q_name q_rec q_blk option_map h_live] in Hl4.
+        destruct Hxn as [-> | ->]; cbn [cat_somes length] in *; lia. }
+    set (an := h_next h3) in *.
+    set (ch1 := mkChan (ch_all ch ++ [qid]) (ch_byqid ch) (ch_bytmo ch) (ch_conns ch) (ch_closed ch)) in *.
+    set (h4 := mkHeap (S an) (an :: h_live h3)) in *.
+    assert (Hok4 : heap_ok h4) by (apply heap_ok_push; exact Hok3).
+    assert (Hnd4 : NoDup (an :: cat_somes [xnm; Some (S n0); Some n0])).
+    { constructor; [|exact Hnd3]. intros Hi. apply Hlt3 in Hi. unfold an in Hi. lia. }
+    assert (Hin4 : incl (an :: cat_somes [xnm; Some (S n0); Some n0]) (h_live h4)).
+    { intros x [<-|Hx']; simpl; [left; reflexivity | right; apply Hin3; exact Hx']. }
+    (* queries_by_qid *)
+    step_malloc_in HR.
+    2:{ set (q3 := mkQuery qid n0 (Some (S n0)) xnm (Some an) None None None 0 ARES_SUCCESS (e_usevc E)) in *.
+        destruct (free_query_spec ch1 q3 (mkHeap (S (h_next h4)) (h_live h4))) as (h5 & Hr5 & Hok5 & Hn5 & Hl5).
+        { apply heap_ok_skip. exact Hok4. }
+        { split; [exact Hnd4 | exact Hin4]. }
+        unfold h4 in HR. cbn [h_next h_live] in HR. unfold h4 in Hr5. cbn [h_next h_live] in Hr5.
+        rewrite (bindM_ok _ _ _ _ _ Hr5) in HR. unfold ret in HR.
+        eexists; eexists. split; [exact HR|].
+        replace (free_query_chan ch1 q3) with ch.
+        2:{ unfold free_query_chan, unlink_conn, q3, ch1.
+            cbn [q_all q_qide q_tmo q_cqn q_qid ch_all ch_byqid ch_bytmo ch_conns ch_closed].
+            rewrite (remove_z_app_fresh qid (ch_all ch) Hf1). destruct ch; reflexivity. }
+        apply submit_post_ended; auto.
+        unfold qblocks, q3 in Hl5. cbn [q_tmo q_cqn q_qide q_all q_name q_rec q_blk option_map h_live] in Hl5.
+        unfold h4 in Hl5. destruct Hxn as [-> | ->]; cbn [cat_somes length h_live] in *; lia. }
+    (* ares_send_query *)
+    unfold h4 in HR. cbn [h_next h_live] in HR.
+    set (qe := S an) in *.
+    set (h5 := mkHeap (S qe) (qe :: an :: h_live h3)) in *.
+    set (q3 := mkQuery qid n0 (Some (S n0)) xnm (Some an) (Some qe) None None 0 ARES_SUCCESS (e_usevc E)) in *.
+    set (ch2 := mkChan (ch_all ch1) (qid :: ch_byqid ch1) (ch_bytmo ch1) (ch_conns ch1) (ch_closed ch1)) in *.
+    assert (Hok5 : heap_ok h5) by (apply (heap_ok_push h4 Hok4)).
+    assert (Hb3 : qblocks q3 = qe :: an :: cat_somes [xnm; Some (S n0); Some n0]) by reflexivity.
+    assert (Hq3 : q_inv q3 h5).
+    { unfold q_inv. rewrite Hb3. split.
+      - constructor; [|exact Hnd4].
+        intros [Hi|Hi]; [unfold qe in Hi; lia | apply Hlt3 in Hi; unfold qe, an in *; lia].
+      - intros x [<-|Hx']; simpl; [left; reflexivity|]. right. apply Hin4 in Hx'. exact Hx'. }
+    destruct (send_query_spec (send_query_fuel E) ch2 q3 [] h5) as (r & h' & Hrun & Hpost).
+    { unfold sq_pre. split; [exact Hok5|]. split; [exact Hq3|]. split; [reflexivity|]. split; [reflexivity|].
+      split; [exact Hnc | exact Hf3]. }
+    { cbn [q_try q3]. lia. }
+    { unfold send_query_fuel. cbn [q_try q3]. lia. }
+    exists r, h'. split; [rewrite HR; exact Hrun|].
+    unfold sq_post in Hpost. unfold submit_post.
+    destruct Hpost as (A & B & C & D & Hm).
+    cbn [ch_conns ch2 ch1] in C, D.
+    split; [exact A|]. split; [exact C|]. split; [exact D|].
+    assert (Hl5 : length (h_live h5) = 2 + length (h_live h3)) by reflexivity.
+    assert (Hlb : length (qblocks q3) = 2 + length (cat_somes [xnm; Some (S n0); Some n0])) by (rewrite Hb3; reflexivity).
+    assert (Hlx : length (cat_somes [xnm; Some (S n0); Some n0]) = length (cat_somes [xnm]) + 2).
+    { destruct Hxn as [-> | ->]; reflexivity. }
+    destruct (r_query r) as [q'|].
+    - destruct Hm as (M1 & M2 & (S1 & _) & M4 & M5 & M6 & M7 & M8 & M9).
+      cbn [q_qid q3 ch_all ch_byqid ch_bytmo ch_conns ch2 ch1] in *.
+      split; [exact M1|]. split; [exact M2|]. split; [exact S1|]. split; [exact M4|].
+      split; [exact M5|]. split; [exact M6|]. split; [exact M7|]. split; [exact M8|]. lia.
+    - destruct Hm as ((st & S1 & S2 & S3 & S4) & M2 & M3 & M4 & M5 & M6).
+      cbn [q_qid q_all q_qide q3 ch_all ch_byqid ch_bytmo ch_conns ch2 ch1] in *.
+      split.
+      { exists st. split; [exact S1|]. split; [left; exact S3|]. split; [intros Hx'; contradiction | exact S4]. }
+      rewrite (remove_z_app_fresh qid (ch_all ch) Hf1) in M3.
+      rewrite (remove_z_cons_fresh qid (ch_byqid ch) Hf2) in M4.
+      split; [exact M3|]. split; [exact M4|]. split; [exact M5|]. lia.
   Qed.
 End SendQuery.
